@@ -2148,3 +2148,651 @@ fn make(f: &BTreeMap<String, String>) -> Box<dyn Scenario> {
     }
     Box::new(Proxy { lib, build_err, child: None, dead_case: None, pending: Vec::new() })
 }
+
+// ------------------------------------------------------------------------------------------------
+// generator
+
+const BIN: [&str; 8] = ["and", "or", "xor", "equiv", "nand", "nor", "imp", "imp_strict"];
+const QUANTS: [&str; 3] = ["forall", "exists", "unique"];
+const NAMES: [&str; 8] = ["a", "b", "c", "x", "y", "z_1", "long_name", "q"];
+
+struct GH {
+    name: String,
+    cnt: u32,
+    /// truth table if the generator can predict it (bit a = value under assignment a)
+    tt: Option<u64>,
+}
+
+struct Gen<'a> {
+    rng: &'a mut Rng,
+    w: &'a mut dyn Write,
+    kind: &'static str,
+    n: u32,
+    hs: Vec<GH>,
+    next: u32,
+    l2v: Vec<u32>,
+    substs: Vec<String>,
+    invalid: Option<String>,
+    mrefs: u32,
+    tiny: bool,
+}
+
+fn bin_tt(op: &str, a: u64, b: u64) -> u64 {
+    match op {
+        "and" => a & b,
+        "or" => a | b,
+        "xor" => a ^ b,
+        "equiv" => !(a ^ b),
+        "nand" => !(a & b),
+        "nor" => !(a | b),
+        "imp" => !a | b,
+        _ => !a & b,
+    }
+}
+
+impl<'a> Gen<'a> {
+    fn emit(&mut self, l: &str) {
+        writeln!(self.w, "{}", l).unwrap();
+    }
+    fn full(&self) -> u64 {
+        if self.n >= 6 { u64::MAX } else { (1u64 << (1u32 << self.n)) - 1 }
+    }
+    fn var_tt(&self, v: u32) -> u64 {
+        let mut t = 0u64;
+        for a in 0..(1u64 << self.n.min(6)) {
+            if (a >> v) & 1 != 0 {
+                t |= 1 << a;
+            }
+        }
+        t
+    }
+    fn fresh(&mut self) -> String {
+        self.next += 1;
+        format!("h{}", self.next)
+    }
+    fn def(&mut self, name: &str, tt: Option<u64>) {
+        let full = self.full();
+        // ZBDD handles denote Boolean functions only for the Boolean operators; the prediction is
+        // only used to prefer non-constant functions for `cof`
+        self.hs.push(GH { name: name.to_string(), cnt: 1, tt: tt.map(|t| t & full) });
+    }
+    fn live(&self) -> Vec<usize> {
+        (0..self.hs.len()).filter(|&i| self.hs[i].cnt > 0).collect()
+    }
+    /// a live handle; sometimes the invalid one
+    fn arg(&mut self) -> Option<usize> {
+        let l = self.live();
+        if l.is_empty() {
+            return None;
+        }
+        Some(*self.rng.pick(&l))
+    }
+    fn arg_name(&mut self) -> Option<String> {
+        if let Some(z) = &self.invalid {
+            if self.rng.chance(1, 12) {
+                return Some(z.clone());
+            }
+        }
+        self.arg().map(|i| self.hs[i].name.clone())
+    }
+    fn tt_of(&self, name: &str) -> Option<u64> {
+        self.hs.iter().find(|h| h.name == name && h.cnt > 0).and_then(|h| h.tt)
+    }
+    fn leaf(&mut self) -> String {
+        let h = self.fresh();
+        let v = self.rng.below(self.n as u64) as u32;
+        match self.rng.below(10) {
+            0 => {
+                self.emit(&format!("const {h} T"));
+                let f = self.full();
+                self.def(&h, Some(f));
+            }
+            1 => {
+                self.emit(&format!("const {h} F"));
+                self.def(&h, Some(0));
+            }
+            2 | 3 => {
+                self.emit(&format!("notvar {h} {v}"));
+                let t = !self.var_tt(v);
+                self.def(&h, Some(t));
+            }
+            _ => {
+                self.emit(&format!("var {h} {v}"));
+                let t = self.var_tt(v);
+                self.def(&h, Some(t));
+            }
+        }
+        h
+    }
+    /// conjunction of literals over distinct variables (`positive`: a variable set)
+    fn cube(&mut self, positive: bool, max: u32) -> String {
+        let k = self.rng.range(1, max.min(self.n) as u64) as usize;
+        let mut vs: Vec<u32> = (0..self.n).collect();
+        self.rng.shuffle(&mut vs);
+        let mut acc: Option<String> = None;
+        for &v in &vs[..k] {
+            let h = self.fresh();
+            let neg = !positive && self.rng.chance(1, 2);
+            self.emit(&format!("{} {h} {v}", if neg { "notvar" } else { "var" }));
+            let t = if neg { !self.var_tt(v) } else { self.var_tt(v) };
+            self.def(&h, Some(t));
+            acc = Some(match acc {
+                None => h,
+                Some(a) => {
+                    let r = self.fresh();
+                    self.emit(&format!("op {r} and {a} {h}"));
+                    let t = self.tt_of(&a).zip(self.tt_of(&h)).map(|(x, y)| x & y);
+                    self.def(&r, t);
+                    // the parts are released again: only the cube stays owned
+                    self.unref(&a);
+                    self.unref(&h);
+                    r
+                }
+            });
+        }
+        acc.unwrap()
+    }
+    fn unref(&mut self, name: &str) {
+        self.emit(&format!("unref {name}"));
+        if let Some(h) = self.hs.iter_mut().find(|h| h.name == name && h.cnt > 0) {
+            h.cnt -= 1;
+        }
+    }
+    fn bits(&mut self) -> String {
+        (0..self.n).map(|_| if self.rng.chance(1, 2) { '1' } else { '0' }).collect()
+    }
+
+    fn random_op(&mut self) {
+        let zbdd = self.kind == "zbdd";
+        let r = self.rng.below(100);
+        if self.live().len() < 2 || r < 10 {
+            self.leaf();
+            return;
+        }
+        let a = self.arg_name().unwrap();
+        let b = self.arg_name().unwrap();
+        let c = self.arg_name().unwrap();
+        let h = self.fresh();
+        match r {
+            10..=14 => {
+                self.emit(&format!("op {h} not {a}"));
+                let t = self.tt_of(&a).map(|t| !t);
+                self.def(&h, t);
+            }
+            15..=36 => {
+                let op = *self.rng.pick(&BIN);
+                self.emit(&format!("op {h} {op} {a} {b}"));
+                let t = self.tt_of(&a).zip(self.tt_of(&b)).map(|(x, y)| bin_tt(op, x, y));
+                self.def(&h, t);
+            }
+            37..=42 => {
+                self.emit(&format!("op {h} ite {a} {b} {c}"));
+                let t = self.tt_of(&a).zip(self.tt_of(&b)).zip(self.tt_of(&c)).map(|((x, y), z)| (x & y) | (!x & z));
+                self.def(&h, t);
+            }
+            43..=47 if !zbdd => {
+                let vs = self.cube(true, 2);
+                let q = *self.rng.pick(&QUANTS);
+                self.emit(&format!("quant {h} {q} {a} {vs}"));
+                self.def(&h, None);
+                if self.rng.chance(2, 3) {
+                    self.unref(&vs);
+                }
+            }
+            48..=50 if !zbdd => {
+                let vs = self.cube(true, 2);
+                let q = *self.rng.pick(&QUANTS);
+                let op = *self.rng.pick(&BIN);
+                self.emit(&format!("applyq {h} {q} {op} {a} {b} {vs}"));
+                self.def(&h, None);
+                self.unref(&vs);
+            }
+            51..=53 if !zbdd => {
+                let cu = self.cube(false, 2);
+                self.emit(&format!("restrict {h} {a} {cu}"));
+                self.def(&h, None);
+                self.unref(&cu);
+            }
+            54..=58 if !zbdd => {
+                // substitution object: created, used, sometimes kept until the end of the case
+                let sid = format!("s{}", self.next);
+                let v1 = self.rng.below(self.n as u64);
+                let mut line = format!("mksubst {sid} {v1}={b}");
+                if self.rng.chance(1, 2) && self.n > 1 {
+                    let v2 = (v1 + 1 + self.rng.below(self.n as u64 - 1)) % self.n as u64;
+                    line.push_str(&format!(" {v2}={c}"));
+                }
+                self.emit(&line);
+                self.emit(&format!("subst {h} {a} {sid}"));
+                self.def(&h, None);
+                if self.rng.chance(1, 4) {
+                    // the object keeps its replacement functions alive without any handle
+                    if self.tt_of(&b).is_some() || self.hs.iter().any(|x| x.name == b && x.cnt > 0) {
+                        self.unref(&b);
+                    }
+                    self.emit("gc");
+                }
+                if self.rng.chance(2, 3) {
+                    self.emit(&format!("dropsubst {sid}"));
+                } else {
+                    self.substs.push(sid);
+                }
+            }
+            43..=47 if zbdd => {
+                let v = self.rng.below(self.n as u64);
+                let op = *self.rng.pick(&["subset0", "subset1", "change"]);
+                self.emit(&format!("{op} {h} {a} {v}"));
+                self.def(&h, None);
+            }
+            48..=53 if zbdd => {
+                let op = *self.rng.pick(&["union", "intsec", "diff"]);
+                self.emit(&format!("{op} {h} {a} {b}"));
+                self.def(&h, None);
+            }
+            54..=56 if zbdd => {
+                let v = self.rng.below(self.n as u64);
+                if self.rng.chance(1, 2) {
+                    self.emit(&format!("singleton {h} {v}"));
+                } else {
+                    let which = if self.rng.chance(1, 2) { "base" } else { "empty" };
+                    self.emit(&format!("zconst {h} {which}"));
+                }
+                self.def(&h, None);
+            }
+            57..=58 if zbdd => self.mknode_block(&h),
+            59..=63 => {
+                // cofactors: prefer functions known not to be constant
+                let full = self.full();
+                let cands: Vec<String> = self.hs.iter().filter(|x| x.cnt > 0 && x.tt.map(|t| t != 0 && t != full).unwrap_or(false)).map(|x| x.name.clone()).collect();
+                let f = if !cands.is_empty() && self.rng.chance(4, 5) { self.rng.pick(&cands).clone() } else { a.clone() };
+                match self.rng.below(4) {
+                    0 => {
+                        self.emit(&format!("coft {h} {f}"));
+                        self.def(&h, None);
+                    }
+                    1 => {
+                        self.emit(&format!("cofe {h} {f}"));
+                        self.def(&h, None);
+                    }
+                    _ => {
+                        let h2 = self.fresh();
+                        self.emit(&format!("cof {h} {h2} {f}"));
+                        self.def(&h, None);
+                        self.def(&h2, None);
+                    }
+                }
+            }
+            64..=66 => {
+                self.emit(&format!("pick {h} {a}"));
+                self.def(&h, None);
+            }
+            67..=68 => {
+                let cu = self.cube(false, 3);
+                self.emit(&format!("pickset {h} {a} {cu}"));
+                self.def(&h, None);
+                self.unref(&cu);
+            }
+            69..=78 => {
+                let q = match self.rng.below(10) {
+                    0 => format!("count {a}"),
+                    1 => format!("sat {a}"),
+                    2 => format!("valid {a}"),
+                    3 => format!("satcount {a} {}", self.n + if zbdd { 0 } else { self.rng.below(3) as u32 }),
+                    4 => format!("pickvec {a}"),
+                    5 => format!("eval {a} {}", self.bits()),
+                    6 => format!("level {a}"),
+                    7 => format!("nvar {a}"),
+                    8 => format!("show {a}"),
+                    _ => format!("tt {a}"),
+                };
+                self.emit(&q);
+            }
+            79..=82 => {
+                self.emit(&format!("ref {a}"));
+                if let Some(x) = self.hs.iter_mut().find(|x| x.name == a && x.cnt > 0) {
+                    x.cnt += 1;
+                }
+            }
+            83..=89 => {
+                if Some(&a) != self.invalid.as_ref() {
+                    self.unref(&a);
+                } else {
+                    self.emit(&format!("unref {a}"));
+                }
+            }
+            90..=92 => self.emit("gc"),
+            93..=94 => match self.rng.below(3) {
+                0 => {
+                    self.emit("mref");
+                    self.mrefs += 1;
+                }
+                1 if self.mrefs > 1 => {
+                    self.emit("munref");
+                    self.mrefs -= 1;
+                }
+                _ => {
+                    self.emit(&format!("cmgr {a}"));
+                    if Some(&a) != self.invalid.as_ref() {
+                        self.mrefs += 1;
+                    }
+                }
+            },
+            95..=96 => {
+                let v = self.rng.below(self.n as u64);
+                let nm = *self.rng.pick(&NAMES);
+                let l = match self.rng.below(6) {
+                    0 => format!("setname {v} {nm}"),
+                    1 => format!("setname {v} -"),
+                    2 => format!("varname {v}"),
+                    3 => format!("name2var {nm}"),
+                    4 => "numnamed".to_string(),
+                    _ => "numvars".to_string(),
+                };
+                self.emit(&l);
+            }
+            97 if !zbdd && !self.tiny => {
+                // (partial) reordering with live nodes
+                let mut vs: Vec<u32> = (0..self.n).collect();
+                self.rng.shuffle(&mut vs);
+                let k = self.rng.range(2, self.n as u64) as usize;
+                let l: Vec<String> = vs[..k].iter().map(|v| v.to_string()).collect();
+                self.emit(&format!("order {}", l.join(" ")));
+                // level dependent predictions are still fine: truth tables do not change
+            }
+            98 => {
+                let l = match self.rng.below(4) {
+                    0 => format!("dddmp {a} {b}"),
+                    1 => format!("dddmp {a} {b} {c} names=1 v=3"),
+                    2 => format!("dot {a} {b}"),
+                    _ => format!("import {a} {b}"),
+                };
+                self.emit(&l);
+            }
+            99 if self.n < 6 && !self.tiny && self.kind != "zbdd" => {
+                if self.rng.chance(1, 2) {
+                    self.emit("addvars 1");
+                } else {
+                    let nm = *self.rng.pick(&NAMES);
+                    self.emit(&format!("addnamed {nm}"));
+                    // a duplicate name adds nothing: ask the manager
+                }
+                // the number of variables may or may not have grown: stop predicting
+                self.emit("numvars");
+                for h in self.hs.iter_mut() {
+                    h.tt = None;
+                }
+                self.n_unknown();
+            }
+            _ => {
+                self.emit(&format!("op {h} and {a} {b}"));
+                let t = self.tt_of(&a).zip(self.tt_of(&b)).map(|(x, y)| x & y);
+                self.def(&h, t);
+            }
+        }
+    }
+    /// after `addnamed` the generator does not know the variable count: keep using the old one
+    /// (a lower bound), which is always valid
+    fn n_unknown(&mut self) {}
+
+    /// `oxidd_zbdd_make_node`: `var` a singleton, `hi` and `lo` strictly below it; consumes `hi`, `lo`
+    fn mknode_block(&mut self, h: &str) {
+        if self.n < 2 {
+            self.leaf();
+            return;
+        }
+        let lv = self.rng.below(self.n as u64 - 1) as usize;
+        let v = self.l2v[lv];
+        let below: Vec<u32> = self.l2v[lv + 1..].to_vec();
+        let sv = self.fresh();
+        self.emit(&format!("singleton {sv} {v}"));
+        self.def(&sv, None);
+        let mut side = |g: &mut Self| -> String {
+            let x = g.fresh();
+            match g.rng.below(4) {
+                0 => g.emit(&format!("zconst {x} base")),
+                1 => g.emit(&format!("zconst {x} empty")),
+                _ => {
+                    let w = *g.rng.pick(&below);
+                    g.emit(&format!("singleton {x} {w}"));
+                }
+            }
+            g.def(&x, None);
+            if g.rng.chance(1, 3) {
+                let y = g.fresh();
+                let w = *g.rng.pick(&below);
+                g.emit(&format!("singleton {y} {w}"));
+                g.def(&y, None);
+                let z = g.fresh();
+                g.emit(&format!("union {z} {x} {y}"));
+                g.def(&z, None);
+                g.unref(&x);
+                g.unref(&y);
+                return z;
+            }
+            x
+        };
+        let hi = side(self);
+        let lo = side(self);
+        if self.rng.chance(1, 3) {
+            // keep a reference of our own: the node stays owned after being consumed once
+            self.emit(&format!("ref {hi}"));
+            self.hs.iter_mut().find(|x| x.name == hi).unwrap().cnt += 1;
+        }
+        self.emit(&format!("mknode {h} {sv} {hi} {lo}"));
+        self.def(h, None);
+        for x in [&hi, &lo] {
+            if let Some(e) = self.hs.iter_mut().find(|e| &e.name == x && e.cnt > 0) {
+                e.cnt -= 1;
+            }
+        }
+        if self.rng.chance(1, 2) {
+            self.unref(&sv);
+        }
+    }
+}
+
+fn random_case(rng: &mut Rng, w: &mut dyn Write, name: &str, kind: &'static str, n: u32, len: usize, cap: Option<usize>) {
+    writeln!(w, "case {name}").unwrap();
+    match cap {
+        Some(c) => writeln!(w, "mgr {kind} vars={n} cap={c}").unwrap(),
+        None => writeln!(w, "mgr {kind} vars={n}").unwrap(),
+    }
+    let mut g = Gen { rng, w, kind, n, hs: Vec::new(), next: 0, l2v: (0..n).collect(), substs: Vec::new(), invalid: None, mrefs: 1, tiny: cap.is_some() };
+    if cap.is_none() && g.rng.chance(1, 3) {
+        // a variable order established on the empty manager (all kinds)
+        let mut vs: Vec<u32> = (0..n).collect();
+        g.rng.shuffle(&mut vs);
+        let l: Vec<String> = vs.iter().map(|v| v.to_string()).collect();
+        g.emit(&format!("order {}", l.join(" ")));
+        g.l2v = vs;
+    }
+    if g.rng.chance(1, 4) {
+        let k = g.rng.range(1, n as u64) as usize;
+        let mut names: Vec<&str> = NAMES.to_vec();
+        g.rng.shuffle(&mut names);
+        for v in 0..k {
+            if g.rng.chance(3, 4) {
+                let l = format!("setname {v} {}", names[v]);
+                g.emit(&l);
+            }
+        }
+    }
+    if g.rng.chance(1, 3) {
+        g.emit("invalid z");
+        g.invalid = Some("z".into());
+    }
+    for _ in 0..len {
+        g.random_op();
+    }
+    if g.rng.chance(1, 2) {
+        g.emit("gc");
+    }
+    g.emit("end");
+}
+
+fn enumerated(w: &mut dyn Write, kind: &'static str) {
+    let z = kind == "zbdd";
+    let mut p = |s: &str| writeln!(w, "{}", s).unwrap();
+    // every function once on three variables
+    p(&format!("case enum-ops-{kind}"));
+    p(&format!("mgr {kind} vars=3"));
+    for l in ["var a 0", "var b 1", "var c 2", "const t T", "const f F", "notvar nb 1", "show a", "show nb", "tt nb"] {
+        p(l);
+    }
+    for (i, op) in BIN.iter().enumerate() {
+        p(&format!("op r{i} {op} a b"));
+        p(&format!("tt r{i}"));
+        p(&format!("count r{i}"));
+    }
+    for l in [
+        "op n not a", "op i ite a b c", "tt i", "count i", "sat i", "valid i", "sat f", "valid t", "satcount i 3", "satcount i 5", "satcount t 3", "pickvec i", "pickvec f", "pickvec t",
+        "pick p i", "pick pf f", "eval i 101", "eval i 010", "level i", "nvar i", "level t", "nvar t", "cof c1 c2 i", "coft ct i", "cofe ce i", "cof d1 d2 t", "coft dt t", "cofe de f",
+        "op x1 and d1 a", "level d1", "ref i", "ref i", "gc", "unref i", "gc", "unref i", "gc", "unref i", "gc", "cmgr a", "mref", "munref", "munref",
+        "dddmp a b r2", "dddmp a r2 names=1 v=3", "dot a r2", "import a r2 r5",
+    ] {
+        p(l);
+    }
+    if !z {
+        for l in [
+            "op vs and a b", "quant q0 forall r2 a", "quant q1 exists r2 vs", "quant q2 unique r2 b", "applyq q3 exists and r2 c a", "applyq q4 forall or r2 c vs", "applyq q5 unique xor r2 c b",
+            "op cu and a nb", "restrict rs i cu", "pickset ps i cu", "mksubst s0 0=r2 2=nb", "subst sb i s0", "tt sb", "unref r2", "gc", "subst sb2 c s0", "dropsubst s0", "gc",
+            "mksubst s1 1=c", "subst sb3 i s1", "subst sn i NULL",
+        ] {
+            p(l);
+        }
+    } else {
+        for l in [
+            "singleton sa 0", "singleton sb 1", "singleton sc 2", "zconst e empty", "zconst ba base", "show sa", "union u0 sa sb", "intsec u1 u0 sa", "diff u2 u0 sa", "subset0 u3 u0 0", "subset1 u4 u0 0",
+            "change u5 u0 2", "tt u5", "count u5", "op cu and a nb", "pickset ps i cu", "ref sc", "mknode mk sa sb sc", "show mk", "ref ba", "mknode mk2 sb ba ba", "show mk2", "gc",
+        ] {
+            p(l);
+        }
+    }
+    p("gc");
+    p("end");
+
+    // invalid handles in every argument position
+    p(&format!("case enum-invalid-{kind}"));
+    p(&format!("mgr {kind} vars=3"));
+    for l in [
+        "var a 0", "var b 1", "op g xor a b", "invalid z", "show z", "op i0 not z", "op i1 and z a", "op i2 or a z", "op i3 xor z z", "op i4 ite z a b", "op i5 ite a z b", "op i6 ite a b z", "op i7 imp_strict g z",
+        "pick i8 z", "pickset i9 z a", "pickset i10 a z", "cof j1 j2 z", "coft j3 z", "cofe j4 z", "level z", "nvar z", "ref z", "unref z", "count z", "dddmp a z", "dddmp z", "dot a z g",
+        "op k0 and i0 a", "op k1 not k0", "unref k1", "gc",
+    ] {
+        p(l);
+    }
+    if !z {
+        for l in [
+            "quant i11 forall z a", "quant i12 exists g z", "applyq i13 exists and z a b", "applyq i14 forall or a z b", "applyq i15 unique xor a b z", "restrict i16 z a", "restrict i17 g z",
+            "mksubst s0 0=g", "subst i18 z s0", "subst i19 g NULL", "mksubst s1 1=z",
+        ] {
+            p(l);
+        }
+    } else {
+        for l in ["subset0 i11 z 0", "subset1 i12 z 1", "change i13 z 2", "union i14 z a", "union i15 a z", "intsec i16 z g", "diff i17 g z"] {
+            p(l);
+        }
+    }
+    p("gc");
+    p("end");
+
+    // reference counting: k refs, k unrefs, collection in between
+    p(&format!("case enum-refcount-{kind}"));
+    p(&format!("mgr {kind} vars=4"));
+    for l in [
+        "var a 0", "var b 1", "var c 2", "var d 3", "op x and a b", "op y or c d", "op f xor x y", "unref x", "unref y", "gc", "ref f", "ref f", "ref f", "gc", "unref f", "unref f", "gc", "tt f", "unref f", "gc", "tt f",
+        "unref f", "gc", "op g and a b", "cof g1 g2 g", "unref g", "gc", "show g1", "show g2", "unref g1", "unref g2", "gc", "unref a", "unref b", "unref c", "unref d", "gc",
+    ] {
+        p(l);
+    }
+    p("end");
+
+    // manager references
+    p(&format!("case enum-mgr-{kind}"));
+    p(&format!("mgr {kind} vars=2"));
+    for l in ["var a 0", "mref", "mref", "cmgr a", "munref", "unref a", "gc", "munref", "var b 1", "cmgr b", "munref", "munref", "show b"] {
+        p(l);
+    }
+    p("end");
+
+    // variables and names
+    p(&format!("case enum-names-{kind}"));
+    p(&format!("mgr {kind} vars=2"));
+    for l in [
+        "numvars", "numnamed", "varname 0", "setname 0 x", "setname 1 x", "setname 1 y", "setname 0 x", "numnamed", "varname 0", "varname 1", "name2var x", "name2var y", "name2var nope", "name2var -",
+        "addnamed p - q", "numvars", "numnamed", "addnamed r x s", "numvars", "numnamed", "varname 5", "setname 0 -", "name2var x", "numnamed", "setname 0 y", "setname 1 x", "name2var y", "addvars 1",
+        "numvars", "v2l 3", "l2v 3", "var a 5", "show a", "setname 0 renamed", "name2var x", "name2var renamed", "numnamed",
+    ] {
+        p(l);
+    }
+    p("end");
+
+    if z {
+        // make_node takes ownership of hi and lo — also when it fails
+        for (nm, lines) in [
+            ("var", vec!["singleton s1 1", "singleton s2 2", "invalid z", "mknode r z s1 s2"]),
+            ("hi", vec!["singleton s0 0", "singleton s2 2", "invalid z", "mknode r s0 z s2"]),
+            ("lo", vec!["singleton s0 0", "singleton s2 2", "invalid z", "mknode r s0 s2 z"]),
+        ] {
+            p(&format!("case enum-mknode-invalid-{nm}-{kind}"));
+            p(&format!("mgr {kind} vars=3"));
+            for l in lines {
+                p(l);
+            }
+            p("gc");
+            p("end");
+        }
+    }
+
+    // `inner_node_capacity = 0` is documented as "no limit"
+    p(&format!("case enum-cap0-{kind}"));
+    p(&format!("mgr {kind} vars=2 cap=0"));
+    for l in ["const t T", "var a 0", "var b 1", "op g and a b", "show g"] {
+        p(l);
+    }
+    p("end");
+}
+
+fn generate(cfg: &GenCfg, rng: &mut Rng, w: &mut dyn Write) {
+    let suite = cfg.extra.get("suite").map(|s| s.as_str()).unwrap_or("main");
+    let kinds: [&'static str; 3] = ["bdd", "bcdd", "zbdd"];
+    let scale = cfg.scale.max(1) as usize;
+    if suite == "main" {
+        for k in kinds {
+            enumerated(w, k);
+        }
+        let cases = if cfg.thorough { 1500 * scale } else { 150 * scale };
+        for i in 0..cases {
+            let kind = kinds[i % 3];
+            let n = rng.range(3, 6) as u32;
+            let len = rng.range(8, if cfg.thorough { 60 } else { 35 }) as usize;
+            random_case(rng, w, &format!("rnd-{kind}-{i}"), kind, n, len, None);
+        }
+    } else if suite == "oom" {
+        let cases = if cfg.thorough { 600 * scale } else { 90 * scale };
+        for i in 0..cases {
+            let kind = kinds[i % 3];
+            let n = rng.range(3, 5) as u32;
+            let cap = n as usize + rng.range(1, 14) as usize;
+            let len = rng.range(10, 40) as usize;
+            random_case(rng, w, &format!("oom-{kind}-{i}"), kind, n, len, Some(cap));
+        }
+    }
+}
+
+fn main() {
+    let args: Vec<String> = std::env::args().collect();
+    if args.get(1).map(|s| s.as_str()) == Some("child") {
+        let mut flags = BTreeMap::new();
+        let mut i = 2;
+        while i + 1 < args.len() {
+            if let Some(k) = args[i].strip_prefix("--") {
+                flags.insert(k.to_string(), args[i + 1].clone());
+            }
+            i += 2;
+        }
+        child_main(&flags);
+        return;
+    }
+    harness_main(generate, make)
+}
